@@ -123,6 +123,8 @@ def main(argv=None):
         prop, len([r for r in prop_res if r['spec']['expect'] == 'hold']), confirmed, len(violations), len(known_hits), len(inconcl), len(errors), twins_ok,
         sum(r.get('paths', 0) or 0 for r in prop_res), sum(r.get('solver_queries', 0) or 0 for r in prop_res),
         sum(r.get('solver_s', 0) or 0 for r in prop_res), wall), flush=True)
+    slow = sorted(prop_res, key=lambda r: -(r.get('wall_s') or 0))[:4]
+    print('  slowest: ' + '; '.join('%s %.0fs/%sp' % (r.get('name'), r.get('wall_s') or 0, r.get('paths')) for r in slow))
     for r in inconcl[:40]:
         print('  inconclusive: %s: %s' % (r.get('name'), (r.get('reason') or '')[:200]))
     if violations:
